@@ -2327,3 +2327,46 @@ func init() {
 	})
 	addDoc("C06", "R06n in the old csv reader's Read the only record-dependent test with an edge back to the record fetch is the xpath filter's verdict.")
 }
+
+func init() {
+	wrapRun("C01", func(c *core.Ctx) {
+		// R01h (= C12 R12e): a record node that stays referenced after its release is released again on the next Read: the
+		// pool then hands one node to two owners and a later Read returns a corrupted record or never returns (seed C01-11).
+		// R01i (= C14 R14b): unsynchronised package-level state on the Read path aborts the process when two transforms run
+		// side by side (seed C01-12) — a Read that does not return at all.
+		if c.CountRule("R01h") == 0 {
+			importRules(c, "C12", map[string]string{"R12e": "R01h"})
+			c.Floor("R01h", 3, "reader references cleared on every release path")
+		}
+		if c.CountRule("R01i") == 0 {
+			importRules(c, "C14", map[string]string{"R14b": "R01i"})
+			c.Floor("R01i", 10, "package-level state on the run path")
+		}
+	})
+	wrapRun("C05", func(c *core.Ctx) {
+		if c.CountRule("R05l") == 0 {
+			partialStructCopy(c, "R05l", []string{"extensions/omniv21/fileformat/flatfile", "extensions/omniv21/fileformat/edi"})
+		}
+	})
+	wrapRun("C04", func(c *core.Ctx) {
+		// R04m (= C08 R08b): a name whose namespace binding was dropped makes the reader fail ("unknown namespace"), and the
+		// error is sticky: every later matching node is lost (seed C04-14)
+		if c.CountRule("R04m") == 0 {
+			importRules(c, "C08", map[string]string{"R08b": "R04m"})
+			c.Floor("R04m", 16, "names, text and namespace table of the XML/JSON readers")
+		}
+	})
+	wrapRun("C03", func(c *core.Ctx) {
+		// K18 (= C06 R06b): the csv decoder's configuration: Comma is the schema's delimiter, and Comment / LazyQuotes /
+		// TrimLeadingSpace are never set — encoding/csv rejects Comma == Comment on every Read without consuming input, which
+		// the old csv reader turns into an endless sequence of continuable errors or a hang in jumpTo (seed C03-15)
+		if c.CountRule("K18") == 0 {
+			importRules(c, "C06", map[string]string{"R06b": "K18"})
+			c.Floor("K18", 4, "csv decoder configuration of the two csv readers")
+		}
+	})
+	addDoc("C01", "R01h (= C12 R12e) reader/ingester references to a released node are cleared on every release path. R01i (= C14 R14b) no unsynchronised package-level state on the run path.")
+	addDoc("C05", "R05l in-buffer element moves carry every field (as R06l).")
+	addDoc("C04", "R04m (= C08 R08b) namespace table discipline.")
+	addDoc("C03", "K18 (= C06 R06b) csv decoder configuration.")
+}
